@@ -5,10 +5,12 @@ PATCH=$1; TIER=$2; shift 2
 S=/tmp/scr_seed_$$
 rsync -a --exclude target --exclude .git /repo/ $S/
 ( cd $S && patch -p1 -s < $PATCH ) || { echo "PATCH FAILED"; rm -rf $S; exit 9; }
-for P in "$@"; do
-  out=$(VERIF_REPO=$S /verif/bin/vcheck $P --tier $TIER 2>&1 | grep -v "^WARNING")
-  rc=$?
-  echo "== $P: $(echo "$out" | grep -E "^(VIOLATION|UNDECIDED|KNOWN-FINDING|failed obligation|C[0-9]+ \[)" | cut -c1-220 | tr '\n' '|')"
-done
 tag=$(python3 -c "import hashlib,sys;print(hashlib.sha1(sys.argv[1].encode()).hexdigest()[:10])" $S)
-rm -rf $S /verif/.cache/kani-target-scratch-$tag /verif/.cache/verus/scratch-$tag /verif/.cache/kani-results-scratch-$tag.json /verif/.cache/kani-scratch-$tag.lock 2>/dev/null
+# reuse the compiled dependencies of the /repo build (the crate itself is recompiled from the scratch sources)
+[ -d /verif/.cache/kani-target-repo ] && cp -r /verif/.cache/kani-target-repo /verif/.cache/kani-target-scratch-$tag
+for P in "$@"; do
+  t0=$(date +%s)
+  out=$(VERIF_REPO=$S VERIF_NO_NATIVE_REPLAY=${VERIF_NO_NATIVE_REPLAY:-1} /verif/bin/vcheck $P --tier $TIER 2>&1 | grep -v "^WARNING")
+  echo "== $P [$TIER] $(( $(date +%s) - t0 ))s: $(echo "$out" | grep -E "^(VIOLATION|UNDECIDED|KNOWN-FINDING|failed obligation|C[0-9]+ \[)" | cut -c1-260 | tr '\n' '|')"
+done
+rm -rf $S /verif/.cache/kani-target-scratch-$tag /verif/.cache/kani-playback-target-scratch-$tag /verif/.cache/verus/scratch-$tag /verif/.cache/kani-results-scratch-$tag.json /verif/.cache/kani-scratch-$tag.lock 2>/dev/null
